@@ -614,6 +614,12 @@ func (p *Posix) GetBucketVersioning(_ context.Context, bucket string) (s3respons
 		return s3response.GetBucketVersioningOutput{}, fmt.Errorf("get bucket versioning config: %w", err)
 	}
 
+	if len(vData) == 0 {
+		// an empty attribute (a sidecar file that was truncated but not
+		// yet, or never, written): no status
+		return s3response.GetBucketVersioningOutput{}, nil
+	}
+
 	enabled, suspended := types.BucketVersioningStatusEnabled, types.BucketVersioningStatusSuspended
 	switch vData[0] {
 	case 1:
